@@ -408,6 +408,26 @@ def run(facts, tier):
     rules.append(t6.finish())
 
 
+    # ---------------- T14.10 TOML keys
+    t10 = Rule("T14.10", "TOML: a key is written bare only if it is non-empty and consists of bare-key characters; the test for bare-key characters (`all(..)`, vacuously true "
+               "for the empty string) is accompanied by an emptiness test, otherwise the empty key is written as nothing and the document does not parse", floor=1)
+    kf = facts.hir_find(r"^<jaq_fmts::write::toml::Key<.*> as core::fmt::Display>::fmt$", "jaq_fmts")
+    if len(kf) != 1:
+        t10.missing_anchor("Display for toml::Key")
+    else:
+        ifs = [n for n in find(kf[0]["body"], lambda n: n.get("k") == "If")]
+        ok = False
+        for n in ifs:
+            cl_ = callees(n["c"])
+            if any(re.search(r"Iterator>?::all$", c_) for c_ in cl_):
+                ok = any(re.search(r"::(is_empty|len|first|split_first|last)$", c_) for c_ in cl_)
+                t10.examined("bare-key", True, {"bare_key_test_checks_emptiness": ok})
+                if not ok:
+                    t10.violate("empty-key", "the TOML writer decides `bare key` with `all(is bare character)` alone, which holds for the empty key: `{\"\": 1} | totoml` writes ` = 1`, which is not TOML", where=n["sp"])
+        if not ifs or not any(any(re.search(r"Iterator>?::all$", c_) for c_ in callees(n["c"])) for n in ifs):
+            t10.missing_anchor("the bare-key test in Display for toml::Key")
+    rules.append(t10.finish())
+
     # ---------------- T14.7 clamped lengths are allocation hints only
     t7 = Rule("T14.7", "in the format readers a declared length that has been clamped (`min`/`clamp` against a bound) is used only as an allocation hint "
               "(with_capacity / reserve), never as the bound of the element loop, an element count (take/nth/skip) or the function's result: containers longer than the bound "
